@@ -116,10 +116,18 @@ func c10Cut(h []byte, cuts []int) [][]byte {
 	return append(segs, h[last:])
 }
 
-var c10Trailer = []byte("c10: first application bytes behind the hello\r\n")
+// what the client sends behind the hello: longer than any hello offered, so that bytes swallowed
+// or repeated behind a long hello cannot go unnoticed
+var c10Trailer = func() []byte {
+	var b []byte
+	for i := 0; len(b) < 20000; i++ {
+		b = append(b, fmt.Sprintf("c10 trailer line %05d: first application bytes behind the hello\r\n", i)...)
+	}
+	return b
+}()
 
 // c10GlueRun plays one hello; clause "" = conforms, "hang" = no verdict.
-func c10GlueRun(l *c10GlueLane, h []byte, cuts []int, want string) (clause, msg string) {
+func c10GlueRun(l *c10GlueLane, h []byte, cuts []int, together bool, want string) (clause, msg string) {
 	const patience = 10 * time.Second
 	verifx.DrainListener(l.upL)
 	l.takeHosts()
@@ -150,7 +158,12 @@ func c10GlueRun(l *c10GlueLane, h []byte, cuts []int, want string) (clause, msg 
 	tc := cc.(*net.TCPConn)
 	tc.SetDeadline(time.Now().Add(patience))
 	var werr error
-	for i, seg := range c10Cut(h, cuts) {
+	segs := c10Cut(h, cuts)
+	if together {
+		// the trailer leaves in the same write as the last piece of the hello
+		segs[len(segs)-1] = append(append([]byte(nil), segs[len(segs)-1]...), c10Trailer...)
+	}
+	for i, seg := range segs {
 		if i > 0 {
 			time.Sleep(2 * time.Millisecond) // a hint that lets the segments arrive apart; nothing is decided by it
 		}
@@ -158,7 +171,7 @@ func c10GlueRun(l *c10GlueLane, h []byte, cuts []int, want string) (clause, msg 
 			break
 		}
 	}
-	if werr == nil {
+	if werr == nil && !together {
 		_, werr = tc.Write(c10Trailer)
 	}
 	tc.CloseWrite()
@@ -193,8 +206,8 @@ func c10GlueRun(l *c10GlueLane, h []byte, cuts []int, want string) (clause, msg 
 		for i < len(u.got) && i < len(exp) && u.got[i] == exp[i] {
 			i++
 		}
-		return "glue-hello-forwarded", fmt.Sprintf("upstream received %d bytes, the client sent %d (hello %d + %d); first difference at offset %d (cuts %v, upstream err %v)",
-			len(u.got), len(exp), len(h), len(c10Trailer), i, cuts, u.err)
+		return "glue-hello-forwarded", fmt.Sprintf("upstream received %d bytes, the client sent %d (hello %d + %d, trailer in the same write as the end of the hello: %v); first difference at offset %d (cuts %v, upstream err %v)",
+			len(u.got), len(exp), len(h), len(c10Trailer), together, i, cuts, u.err)
 	}
 	return "", ""
 }
@@ -272,7 +285,8 @@ func TestVerifC10Glue(t *testing.T) {
 				continue // a cut outside this hello
 			}
 			ran++
-			clause, msg := c10GlueRun(lane, h.b, cuts, want)
+			together := ran%2 == 0
+			clause, msg := c10GlueRun(lane, h.b, cuts, together, want)
 			switch clause {
 			case "":
 				evals += 2
